@@ -469,9 +469,10 @@ func c07TinyCorpus() []c07Plan {
 			Writers: [][]c07Op{{upd(0, r(1, 1, 10), r(2, 0, 13))}, {add(1, r(1, 0, 9))}},
 			Readers: [][]c07Op{find(12)},
 		},
-		{ // two providers claim the same path: exactly one is rejected (error path with the deferred unlock)
+		{ // two providers claim the same path: exactly one is rejected (error path with the deferred unlock); the
+			// rejected provider goes on with another change (a lock left behind by the error path blocks it)
 			Lit:     true,
-			Writers: [][]c07Op{{add(0, r(1, 0, 0))}, {add(1, r(1, 0, 0))}},
+			Writers: [][]c07Op{{add(0, r(1, 0, 0))}, {add(1, r(1, 0, 0)), upd(1, r(2, 0, 4))}},
 			Readers: [][]c07Op{find(0)},
 		},
 		{ // default rule: the lookup falls back to r.dr
@@ -482,8 +483,9 @@ func c07TinyCorpus() []c07Plan {
 	}
 }
 
-// c07TinyPlan: a random plan small enough for exhaustive enumeration
-func c07TinyPlan(r *vf.Rand) c07Plan {
+// c07TinyPlan: a random plan small enough for exhaustive enumeration (big: a second operation for a single
+// writer / a second reader are allowed - thousands of schedules after reduction; thorough tier only)
+func c07TinyPlan(r *vf.Rand, big bool) c07Plan {
 	p := c07Plan{Lit: r.Chance(50), Default: r.Chance(15)}
 	present := map[int]bool{}
 
@@ -514,7 +516,7 @@ func c07TinyPlan(r *vf.Rand) c07Plan {
 		}
 
 		ops := []c07Op{gen(src)}
-		if nW == 1 && r.Chance(60) {
+		if nW == 1 && (big || r.Chance(50)) {
 			ops = append(ops, gen(src))
 		}
 
@@ -522,14 +524,19 @@ func c07TinyPlan(r *vf.Rand) c07Plan {
 	}
 
 	nR := 1
-	if nW == 1 && r.Chance(40) {
+	if big && nW == 1 && r.Chance(40) {
 		nR = 2
 	}
 
 	for q := 0; q < nR; q++ {
 		var ops []c07Op
 
-		for i, n := 0, r.Range(1, 2); i < n; i++ {
+		nF := 1
+		if big || nW == 1 {
+			nF = r.Range(1, 2)
+		}
+
+		for i := 0; i < nF; i++ {
 			if p.Lit {
 				ops = append(ops, c07Op{Kind: "find", Path: r.Intn(c07NLitReq)})
 			} else {
@@ -816,18 +823,19 @@ func TestVerifC07Sched(t *testing.T) {
 	idx := 0
 	stopAfter := 40 // failing schedules reported per run at most (the first ones are what matters)
 	failing := 0
-	perPlan := max(budget/8, 100)
+	perPlan := max(budget/6, 100)
 	sleepSets := os.Getenv("VERIF_C07_NOSLEEP") == ""
 
 	// ---- tiny plans, every schedule
 	corpus := c07TinyCorpus()
-	nTiny := len(corpus) + 6
+	nTiny := len(corpus) + 8
 
 	if thorough {
 		nTiny = len(corpus) + 60
 	}
 
-	for pi := 0; pi < nTiny && idx < budget && failing < stopAfter; pi++ {
+	// budget: the corpus plans completely, generated tiny plans up to 3/4 of the budget, sampled larger plans for the rest
+	for pi := 0; pi < nTiny && (idx < budget*3/4 || pi < len(corpus)) && idx < budget && failing < stopAfter; pi++ {
 		var (
 			p    c07Plan
 			kind = "tiny-corpus"
@@ -836,7 +844,7 @@ func TestVerifC07Sched(t *testing.T) {
 		if pi < len(corpus) {
 			p = corpus[pi]
 		} else {
-			p = c07TinyPlan(rnd.Fork(uint64(pi)))
+			p = c07TinyPlan(rnd.Fork(uint64(pi)), thorough && pi%3 == 0)
 			kind = "tiny-generated"
 		}
 
@@ -847,7 +855,7 @@ func TestVerifC07Sched(t *testing.T) {
 
 			bad := 0
 			limit := min(perPlan, budget-idx)
-			if pi < len(corpus) {
+			if pi < len(corpus) && !wp {
 				limit = budget - idx // the corpus plans are always enumerated completely
 			}
 
